@@ -299,7 +299,8 @@ class Proxy:
 class World:
     """a set of real TunnelCommunity nodes whose tunnel cells are held by the harness"""
 
-    def __init__(self, ctx: Ctx, rng, n_relays: int, n_exits: int, desc: str, rtd=0, nht=None):
+    def __init__(self, ctx: Ctx, rng, n_relays: int, n_exits: int, desc: str, rtd=0, nht=None, hidden=False,
+                 gated=False):
         (self.OpenSSLSK, self.comm, self.pl, self.tn, self.mep, self.MockIPv8, self.rt, self.ser) = _imports()
         self.ctx, self.rng, self.desc = ctx, rng, desc
         self.nodes = []
@@ -320,6 +321,9 @@ class World:
         self.history = []        # every cell delivered so far (dst, src, bytes) — material for replays
         self.established = {}    # (cid, k) -> responder end of a hop accepted with genuine material
         self.nongenuine = set()  # circuits with a hop accepted on non-genuine material (no agreement expected)
+        self.gated = set()       # nodes whose should_join_circuit (documented override hook) really suspends
+        self.gates = []          # (node idx, future) of joins suspended in that hook, oldest first
+        self.joins = []          # join_circuit invocations during the current step: (idx, create payload)
         self.tampered = False    # the harness altered / forged / redirected something (else: delays, drops, replays only)
         self.slice = 5.0   # recomputed from the nodes' settings below
         self.sym = Sym(self.rt, self.OpenSSLSK)
@@ -328,8 +332,15 @@ class World:
         flags += [{self.tn.PEER_FLAG_RELAY, st}] * n_relays
         flags += [{self.tn.PEER_FLAG_RELAY, self.tn.PEER_FLAG_EXIT_BT, st}] * n_exits
         self.flags = flags
+        if hidden:
+            # the shipped subclass (hidden services): same handshake code path through its overrides
+            from ipv8.messaging.anonymization.hidden_services import HiddenTunnelCommunity, HiddenTunnelSettings
+            community_cls, settings_cls = HiddenTunnelCommunity, HiddenTunnelSettings
+        else:
+            community_cls, settings_cls = self.comm.TunnelCommunity, self.comm.TunnelSettings
+        ctx.count("overlay-class:" + community_cls.__name__)
         for i, fl in enumerate(flags):
-            s = self.comm.TunnelSettings()
+            s = settings_cls()
             s.min_circuits = 0
             s.max_circuits = 0
             if rtd is not None:
@@ -339,7 +350,9 @@ class World:
                 s.circuit_timeout = nht * (self.comm.TunnelSettings.circuit_timeout
                                            // self.comm.TunnelSettings.next_hop_timeout)
             s.peer_flags = set(fl)
-            n = self.MockIPv8("curve25519", self.comm.TunnelCommunity, settings=s)
+            n = self.MockIPv8("curve25519", community_cls, settings=s)
+            if hidden:
+                n.overlay.ipv8 = n
             n.overlay.cancel_all_pending_tasks()
             self.nodes.append(n)
             self.sym.reg_static(i + 1, n.my_peer.key)
@@ -360,6 +373,8 @@ class World:
                 self.mep.internet[a] = Proxy(self, i, n.endpoint)
                 self.addr_idx[a] = i
             self._hook(i, n.overlay)
+            if gated and i != 0:
+                self._gate(i, n.overlay)
         self.lines.append("reset")
         self.expect.append(None)
         for i, fl in enumerate(flags):
@@ -387,6 +402,55 @@ class World:
             self.sent.append((idx, target_addr, payload))
             return _orig(target_addr, payload)
         ov.send_cell = send_cell
+
+    def _gate(self, idx, ov):
+        """override should_join_circuit (the hook is documented as meant to be overwritten) with a policy that really
+        awaits: the join resumes only when the harness releases it; join_circuit invocations are recorded"""
+        self.gated.add(idx)
+
+        async def should_join_circuit(create_payload, previous_node_address):
+            fut = asyncio.get_running_loop().create_future()
+            self.gates.append((idx, fut))
+            return await fut
+        ov.should_join_circuit = should_join_circuit
+        orig_join = ov.join_circuit
+
+        def join_circuit(create_payload, previous_node_address, _orig=orig_join):
+            self.joins.append((idx, create_payload))
+            return _orig(create_payload, previous_node_address)
+        ov.join_circuit = join_circuit
+
+    async def release_join(self, which: int = 0, accept: bool = True):
+        """let one suspended should_join_circuit return: one step of its own"""
+        if not self.gates:
+            return False
+        idx, fut = self.gates.pop(which if which < len(self.gates) else 0)
+        self.step_no += 1
+        self.calls, self.sent, self.joins = [], [], []
+        before = self.snapshot()
+        fut.set_result(accept)
+        await self.settle()
+        self.note_sends()
+        P = self.pl
+        if not self.joins:
+            self._record(f"{idx} show", "[] | " + self.state_s(idx))
+        for jidx, p in self.joins:
+            emitted = [q for i, t, q in self.sent if i == jidx and isinstance(q, P.CreatedPayload)
+                       and q.circuit_id == p.circuit_id]
+            y, offered = 0, "[]"
+            if emitted:
+                w = self.sym.wire(emitted[0].key)
+                y = w[0] if w else 0
+                b = self.blob_s(emitted[0].candidates_enc)
+                offered = b.split("/")[2] if b.startswith("E/") else "[]"
+            outs = ",".join(self.out_s(t, q) for i, t, q in self.sent if i == jidx)
+            self.track(jidx, [p.circuit_id])
+            self._record(f"{jidx} join {p.circuit_id} {p.identifier} {self.sym.static_of_bin(p.node_public_key)} "
+                         f"{self.sym.wire_s(p.key)} {y} {offered}", f"[{outs}] | " + self.state_s(jidx))
+            self.ctx.count("join-resumed:" + ("joined" if emitted else "refused"))
+        self.oracle_after(before, [])
+        self.ctx.case((self.desc, self.step_no), True)
+        return True
 
     def on_wire(self, dst_idx, packet):
         src, data = packet
@@ -765,9 +829,12 @@ class World:
 
     async def flush(self, max_steps=60):
         n = 0
-        while self.pending and n < max_steps:
+        while (self.pending or self.gates) and n < max_steps:
             n += 1
-            await self.deliver(self.pending.pop(0))
+            if self.pending:
+                await self.deliver(self.pending.pop(0))
+            else:
+                await self.release_join()
 
     # ---- steps ---------------------------------------------------------------------------------------------
     def _record(self, line, expected):
@@ -786,6 +853,12 @@ class World:
                 self._record(f"{idx} show", "[] | " + self.state_s(idx))
                 continue
             outs = ",".join(self.out_s(t, q) for i, t, q in self.sent if i == idx)
+            if mid == 2 and idx in self.gated:
+                # the guards of on_create ran, the join itself is suspended in should_join_circuit
+                self.track(idx, [p.circuit_id])
+                self.ctx.count("handler:on_create:suspended-or-refused")
+                self._record(f"{idx} show", "[] | " + self.state_s(idx))
+                continue
             if mid == 2:
                 self.track(idx, [p.circuit_id])
                 emitted = [q for i, t, q in self.sent if i == idx and isinstance(q, P.CreatedPayload)]
@@ -1034,7 +1107,8 @@ def r_idx_of(w, h):
 
 
 async def build_world(ctx, rng, desc, n_relays=3, n_exits=2):
-    w = World(ctx, rng, n_relays, n_exits, desc, rtd=desc.get("rtd", 0), nht=desc.get("nht"))
+    w = World(ctx, rng, n_relays, n_exits, desc, rtd=desc.get("rtd", 0), nht=desc.get("nht"),
+              hidden=desc.get("hidden", False), gated=desc.get("gated", False))
     await w.introduce()
     return w
 
@@ -1063,9 +1137,14 @@ async def start_circuit(w: World, hops: int, required_exit=None, idx: int = 0):
 
 
 async def run_fifo(w: World, max_steps=60, on_msg=None):
-    """deliver held cells first-in first-out; on_msg(h) may return 'hold'/'drop' or a list of deliveries"""
+    """deliver held cells first-in first-out; on_msg(h) may return 'hold'/'drop' or a list of deliveries; suspended
+    joins (gated worlds) are released when nothing else is in flight"""
     steps = 0
-    while w.pending and steps < max_steps:
+    while (w.pending or w.gates) and steps < max_steps:
+        if not w.pending:
+            steps += 1
+            await w.release_join()
+            continue
         h = w.pending.pop(0)
         steps += 1
         if on_msg is not None:
@@ -1436,6 +1515,54 @@ async def sc_two_originators(ctx, rng, desc, hops, shuffle):
         await w.close()
 
 
+async def sc_slow_join(ctx, rng, desc, hops, pos, variant):
+    """responders run an overridden should_join_circuit that really suspends (policy decision pending): the CREATE of
+    hop `pos` is duplicated / replayed while the first copy is suspended, after it resumed, or both; joins resume in
+    arrival order, reversed, or interleaved with the answer's delivery"""
+    w = await build_world(ctx, rng, desc)
+    try:
+        circuits = [await start_circuit(w, hops)]
+        n_create = [0]
+        extra = []
+
+        async def on_msg(h: Held):
+            if h.kind == 2:
+                n_create[0] += 1
+                if n_create[0] == pos:
+                    await w.deliver(h)
+                    if variant in ("dup-while-suspended", "dup-reversed", "triple"):
+                        await w.deliver(h)
+                        ctx.count("slow-join:duplicate-while-suspended")
+                        if variant == "triple":
+                            await w.deliver(h)
+                        if variant == "dup-reversed" and len(w.gates) >= 2:
+                            await w.release_join(1)
+                    elif variant == "dup-after-resume":
+                        await w.release_join()
+                        await w.deliver(h)
+                        ctx.count("slow-join:duplicate-after-resume")
+                    elif variant == "dup-after-answer":
+                        extra.append(h)
+                    elif variant == "refuse-then-accept":
+                        await w.release_join(0, accept=False)
+                        await w.deliver(h)
+                    return "handled"
+            return None
+        await run_fifo(w, 160, on_msg)
+        for h in extra:
+            await w.deliver(h)
+            ctx.count("slow-join:duplicate-after-answer")
+        await run_fifo(w, 160)
+        if variant not in ("refuse-then-accept",) or True:
+            pass
+        if not w.tampered:
+            final_honest_checks(w, [c for c in circuits if c is not None], expect_ready=True)
+        await w.finish()
+        return w
+    finally:
+        await w.close()
+
+
 async def sc_cross(ctx, rng, desc, hops, variant):
     """two circuits built at once; the first answers are exchanged between them (circuit id only / id + identifier)"""
     w = await build_world(ctx, rng, desc)
@@ -1753,6 +1880,10 @@ def scenario_list(ctx: Ctx, tier: str):
             for v in ("key-short", "key-zero", "key-swap", "key-flip-bit255", "ident-change"):
                 out.append({"k": "forged-create", "hops": hops, "pos": pos, "variant": v})
         out.append({"k": "forged-create", "hops": hops, "pos": 1, "variant": "own-cid-to-originator"})
+        for pos in range(1, hops + 1):
+            for v in ("none", "dup-while-suspended", "dup-reversed", "triple", "dup-after-resume", "dup-after-answer",
+                      "refuse-then-accept"):
+                out.append({"k": "slow-join", "hops": hops, "pos": pos, "variant": v, "gated": True})
         out.append({"k": "two-originators", "hops": hops, "shuffle": False})
         out.append({"k": "two-originators", "hops": hops, "shuffle": True})
         if hops > 1:
@@ -1772,11 +1903,14 @@ def scenario_list(ctx: Ctx, tier: str):
         for pos in range(2, hops + 1):
             for moment in ("after-ready", "before-retry-answer", "after-delay"):
                 for rtd in (0, None):
-                    out.append({"k": "relay-late", "hops": hops, "pos": pos, "moment": moment, "rtd": rtd, "nht": 3,
-                                "twice": moment == "after-ready" and rtd is None})
+                    for hidden in (False, True):
+                        out.append({"k": "relay-late", "hops": hops, "pos": pos, "moment": moment, "rtd": rtd,
+                                    "nht": 3, "hidden": hidden, "twice": moment == "after-ready" and rtd is None})
     # remove_tunnel_delay: the test-suite value 0 and the shipped default (None) alternate over the enumeration
+    # ... and the overlay class between TunnelCommunity and the shipped subclass HiddenTunnelCommunity
     for i, d in enumerate(out):
         d.setdefault("rtd", 0 if i % 2 == 0 else None)
+        d.setdefault("hidden", (i // 2) % 2 == 1)
     return out
 
 
@@ -1814,6 +1948,8 @@ async def run_scenario(ctx, d: dict, sub_seed: int):
         return await sc_forged_create(ctx, rng, desc, d["hops"], d["pos"], d["variant"])
     if k == "two-originators":
         return await sc_two_originators(ctx, rng, desc, d["hops"], d["shuffle"])
+    if k == "slow-join":
+        return await sc_slow_join(ctx, rng, desc, d["hops"], d["pos"], d["variant"])
     if k == "id-squat":
         return await sc_id_squat(ctx, rng, desc, d["hops"], d["pos"], d["order"])
     if k == "replay-expired":
@@ -1887,7 +2023,7 @@ def run(ctx: Ctx):
     if ctx.replay_input is not None:
         return replay(ctx, ctx.replay_input)
     sc = [(d, ctx.rng.getrandbits(32)) for d in scenario_list(ctx, ctx.tier)]
-    sc += [({"k": "random", "rtd": [0, None][i % 2]}, ctx.rng.getrandbits(32)) for i in range(ctx.scale(60, 900))]
+    sc += [({"k": "random", "rtd": [0, None][i % 2], "hidden": (i // 2) % 2 == 1}, ctx.rng.getrandbits(32)) for i in range(ctx.scale(60, 900))]
     if ctx.thorough():
         for _rep in range(2):
             sc += [(d, ctx.rng.getrandbits(32)) for d in scenario_list(ctx, "thorough")]
@@ -1896,7 +2032,7 @@ def run(ctx: Ctx):
 
 def search(ctx: Ctx, reason: str):
     sc = [(d, ctx.rng.getrandbits(32)) for d in scenario_list(ctx, "thorough")]
-    sc += [({"k": "random", "rtd": [0, None][i % 2]}, ctx.rng.getrandbits(32)) for i in range(300)]
+    sc += [({"k": "random", "rtd": [0, None][i % 2], "hidden": (i // 2) % 2 == 1}, ctx.rng.getrandbits(32)) for i in range(300)]
     run_all(ctx, sc, False)
 
 
